@@ -384,6 +384,7 @@ func runC17(c *Ctx) {
 	}
 	c.R.Floor("C17.primitive-result-unmodified", 5)
 	c17Shapes(c)
+	c17RegexpOwnPattern(c)
 }
 
 func c17Shapes(c *Ctx) {
@@ -484,6 +485,131 @@ func c17Shapes(c *Ctx) {
 	}
 	if f := c.BuiltinFn("right"); f != nil {
 		c.R.Check(rule, "right-slices-to-end", c.P.Pos(f.Pos()), sliceShape(f, false), "`right(s, n)` must slice to the end of s (s[len(s)-n:])")
+	}
+	// mid: when written as a slice of s, the bounds are start (floored at 0) and end (capped at len(s)). A version
+	// composed from other builtins is not decided here: whether composed clamps agree is arithmetic, not shape.
+	if f := c.BuiltinFn("mid"); f != nil && len(f.Params) == 3 {
+		direct, good, why := false, true, ""
+		instrs(f, func(b *ssa.BasicBlock, i int, in ssa.Instruction) {
+			ret, isR := in.(*ssa.Return)
+			if !isR || len(ret.Results) != 2 || !isNilConst(ret.Results[1]) {
+				return
+			}
+			sl, isS := ret.Results[0].(*ssa.Slice)
+			if !isS || sl.X != ssa.Value(f.Params[0]) {
+				return
+			}
+			direct = true
+			var classify func(v ssa.Value, wantHelper string, depth int) (hasParam map[int]bool, hasLen bool, bad string)
+			classify = func(v ssa.Value, wantHelper string, depth int) (map[int]bool, bool, string) {
+				hp, hl, bad := map[int]bool{}, false, ""
+				for _, rt := range plainOrigins.Roots(v) {
+					switch {
+					case rt.Kind == "param" && len(rt.Path) == 0:
+						hp[rt.Idx] = true
+					case rt.Kind == "const":
+					case rt.Kind == "call" && rt.Fn == nil:
+						if call, ok := rt.V.(*ssa.Call); ok && isBuiltinCall(call, "len") && call.Call.Args[0] == ssa.Value(f.Params[0]) {
+							hl = true
+						} else {
+							bad = rt.String()
+						}
+					case rt.Kind == "call" && rt.Fn != nil && depth < 2 && c.minMaxHelper(rt.Fn) == wantHelper:
+						// a clamp helper: min(n, limit) / max(n, limit) hands back one of its two arguments
+						for _, a := range rt.V.(*ssa.Call).Call.Args {
+							if !isIntType(a.Type()) {
+								// a string / slice argument stands for its length
+								if a == ssa.Value(f.Params[0]) {
+									hl = true
+								} else {
+									bad = "the length of " + describeValue(a)
+								}
+								continue
+							}
+							p2, l2, b2 := classify(a, wantHelper, depth+1)
+							for k := range p2 {
+								hp[k] = true
+							}
+							hl = hl || l2
+							if b2 != "" {
+								bad = b2
+							}
+						}
+					case rt.Kind == "call" && rt.Fn != nil && c.minMaxHelper(rt.Fn) != "" && c.minMaxHelper(rt.Fn) != wantHelper:
+						bad = c.P.FuncKey(rt.Fn) + ", which yields the " + c.minMaxHelper(rt.Fn) + " where the " + wantHelper + " is needed"
+					case rt.Kind == "call" && rt.Fn != nil && depth < 2 && c.inModule(rt.Fn) && len(rt.Fn.Blocks) > 0 && len(rt.Path) == 0:
+						// some other clamp helper, e.g. clampLen(n, s): what it can return, in terms of its arguments
+						call := rt.V.(*ssa.Call)
+						instrs(rt.Fn, func(b *ssa.BasicBlock, i int, in ssa.Instruction) {
+							ret, isR := in.(*ssa.Return)
+							if !isR || rt.Idx >= len(ret.Results) {
+								return
+							}
+							for _, q := range plainOrigins.Roots(ret.Results[rt.Idx]) {
+								switch {
+								case q.Kind == "param" && len(q.Path) == 0 && q.Idx < len(call.Call.Args):
+									p2, l2, b2 := classify(call.Call.Args[q.Idx], wantHelper, depth+1)
+									for k := range p2 {
+										hp[k] = true
+									}
+									hl = hl || l2
+									if b2 != "" {
+										bad = b2
+									}
+								case q.Kind == "const":
+								case q.Kind == "call" && q.Fn == nil:
+									lc, ok := q.V.(*ssa.Call)
+									if ok && isBuiltinCall(lc, "len") {
+										if pp, isP := lc.Call.Args[0].(*ssa.Parameter); isP && paramIndex(pp) < len(call.Call.Args) && call.Call.Args[paramIndex(pp)] == ssa.Value(f.Params[0]) {
+											hl = true
+											continue
+										}
+									}
+									bad = c.P.FuncKey(rt.Fn) + " returns " + q.String()
+								default:
+									bad = c.P.FuncKey(rt.Fn) + " returns " + q.String()
+								}
+							}
+						})
+					default:
+						bad = rt.String()
+					}
+				}
+				return hp, hl, bad
+			}
+			check := func(v ssa.Value, want int, what string, needLen bool) {
+				if v == nil {
+					good, why = false, what+" bound missing"
+					return
+				}
+				helper := "max"
+				if needLen {
+					helper = "min"
+				}
+				hp, hasLen, bad := classify(v, helper, 0)
+				if bad != "" {
+					good, why = false, what+" bound comes from "+bad
+				}
+				for k := range hp {
+					if k != want {
+						good, why = false, what+" bound comes from another argument"
+					}
+				}
+				if !hp[want] {
+					good, why = false, what+" bound does not come from the "+what+" argument"
+				}
+				if needLen && !hasLen {
+					good, why = false, "the end bound is not capped at len(s)"
+				}
+			}
+			check(sl.Low, 1, "start", false)
+			check(sl.High, 2, "end", true)
+		})
+		if direct {
+			c.R.Check(rule, "mid-slices-between", c.P.Pos(f.Pos()), good, "`mid(s, i, j)` must be s[i:j] with i floored at 0 and j capped at len(s); "+why)
+		} else {
+			c.R.Add(rule, "mid-slices-between", c.P.Pos(f.Pos()), OK, "")
+		}
 	}
 	for _, spec := range []struct {
 		name     string
@@ -701,6 +827,7 @@ func runC18(c *Ctx) {
 	// a numeric builtin returns a new number and leaves its arguments alone (abs(x) must not turn x positive)
 	c07Fresh(c, "C18.fresh-results")
 	c18RoundDirection(c)
+	c18Finite(c)
 	// max / min hand back one of their arguments
 	for _, name := range []string{"max", "min"} {
 		f := c.BuiltinFn(name)
@@ -988,6 +1115,11 @@ func runC19(c *Ctx) {
 	c.R.Floor("C19.registered", 14)
 	builtinRelevance(c, "C19.param-relevance", specDateBuiltins, nil)
 	c.R.Floor("C19.param-relevance", 14)
+	// the time a date builtin returns reaches the next builtin (and the caller) as that very time: the value normaliser
+	// every sub-expression passes through hands a time.Time on unchanged (no instant is singled out as "unset")
+	if d := c.EvalDispatcher(); d != nil {
+		c16NormaliseAs(c, d, "C19.times-pass-unchanged", true)
+	}
 	const rule = "C19.wiring"
 	isZero := func(v ssa.Value) bool { n, ok := constIntArg(v); return ok && n == 0 }
 	isLocal := func(v ssa.Value) bool {
@@ -1434,4 +1566,220 @@ func (c *Ctx) effectiveUnit(f *ssa.Function) (*ssa.Function, *FoldResult, map[ss
 		return ident()
 	}
 	return g, (&Folder{P: c.P}).Fold(g, args), back
+}
+
+// c17RegexpOwnPattern: `regexp(s, p)` matches s against p - the pattern of THIS call. The compiled expression whose
+// Match method decides the result must, on every path, come from compiling the pattern argument (directly, or in a
+// module helper that is handed the pattern); a compiled expression taken from anywhere else (a package-level memo, a
+// field) can be the previous call's pattern.
+func c17RegexpOwnPattern(c *Ctx) {
+	const rule = "C17.regexp-own-pattern"
+	f := c.BuiltinFn("regexp")
+	if f == nil || len(f.Params) < 2 {
+		return
+	}
+	isCompile := func(g *ssa.Function) bool {
+		if g == nil {
+			return false
+		}
+		switch g.String() {
+		case "regexp.MustCompile", "regexp.Compile":
+			return true
+		}
+		return false
+	}
+	var fromPattern func(v ssa.Value, pat ssa.Value, depth int) (bool, string)
+	fromPattern = func(v ssa.Value, pat ssa.Value, depth int) (bool, string) {
+		if depth > 4 {
+			return false, "too deep"
+		}
+		rs := plainOrigins.Roots(v)
+		if len(rs) == 0 {
+			return false, "no origin"
+		}
+		for _, rt := range rs {
+			call, isCall := rt.V.(*ssa.Call)
+			switch {
+			case rt.Kind == "call" && isCall && isCompile(rt.Fn) && len(rt.Path) == 0:
+				if call.Call.Args[0] != pat {
+					return false, "compiles " + describeValue(call.Call.Args[0]) + ", not the pattern argument"
+				}
+			case rt.Kind == "call" && isCall && rt.Fn != nil && c.inModule(rt.Fn) && len(rt.Path) == 0:
+				// a helper: which of its parameters receives the pattern
+				pi := -1
+				for i, a := range call.Call.Args {
+					if a == pat {
+						pi = i
+					}
+				}
+				if pi < 0 || pi >= len(rt.Fn.Params) {
+					return false, c.P.FuncKey(rt.Fn) + " is not given the pattern"
+				}
+				good, why := true, ""
+				instrs(rt.Fn, func(b *ssa.BasicBlock, i int, in ssa.Instruction) {
+					ret, ok := in.(*ssa.Return)
+					if !ok || rt.Idx >= len(ret.Results) || isNilConst(ret.Results[rt.Idx]) {
+						return
+					}
+					if ok2, w := fromPattern(ret.Results[rt.Idx], rt.Fn.Params[pi], depth+1); !ok2 {
+						good, why = false, c.P.FuncKey(rt.Fn)+": "+w
+					}
+				})
+				if !good {
+					return false, why
+				}
+			default:
+				return false, "the compiled expression comes from " + rt.String()
+			}
+		}
+		return true, ""
+	}
+	n := 0
+	pat := ssa.Value(f.Params[1])
+	instrs(f, func(b *ssa.BasicBlock, i int, in ssa.Instruction) {
+		call, ok := in.(*ssa.Call)
+		if !ok {
+			return
+		}
+		cal := calleeOf(call)
+		if cal == nil {
+			return
+		}
+		name := cal.String()
+		switch {
+		case strings.HasPrefix(name, "(*regexp.Regexp).Match"):
+			n++
+			good, why := fromPattern(call.Call.Args[0], pat, 0)
+			c.R.Check(rule, fmt.Sprintf("matcher#%d", n), c.P.InstrPos(in), good, "the expression that decides `regexp(s, p)` must be compiled from p in this very call: "+why+"; a remembered expression can belong to an earlier pattern (after a failed compile the memo and its key disagree)")
+		case name == "regexp.MatchString" || name == "regexp.Match":
+			n++
+			c.R.Check(rule, fmt.Sprintf("matcher#%d", n), c.P.InstrPos(in), call.Call.Args[0] == pat, "regexp.Match must be given the pattern argument")
+		}
+	})
+	if n == 0 {
+		c.R.Undecided(rule, "matcher", c.P.Pos(f.Pos()), "no Match call found in the builtin itself")
+	}
+	c.R.Floor(rule, 1)
+}
+
+// minMaxHelper recognises a two-argument clamp helper that hands back the smaller ("min") or the larger ("max") of
+// two quantities: two integers, or an integer and the length of a string / slice argument. Every return is one of the
+// two quantities, the only branch compares them with each other, and folding the three possible orderings (a<b, a==b,
+// a>b) selects the smaller / larger each time.
+func (c *Ctx) minMaxHelper(f *ssa.Function) string {
+	if f == nil || !c.inModule(f) || len(f.Blocks) == 0 || len(f.Params) != 2 || f.Signature.Results().Len() != 1 {
+		return ""
+	}
+	// the two quantities: an int parameter stands for itself, a string / slice parameter for its length
+	var q [2]ssa.Value
+	var lens []ssa.Value
+	nInt := 0
+	for i, p := range f.Params {
+		if isIntType(p.Type()) {
+			q[i] = p
+			nInt++
+			continue
+		}
+		switch p.Type().Underlying().(type) {
+		case *types.Basic, *types.Slice:
+		default:
+			return ""
+		}
+		for _, ref := range *p.Referrers() {
+			call, ok := ref.(*ssa.Call)
+			if _, isDbg := ref.(*ssa.DebugRef); isDbg {
+				continue
+			}
+			if !ok || !isBuiltinCall(call, "len") {
+				return "" // the argument is used for more than its length
+			}
+			lens = append(lens, call)
+		}
+		if len(lens) == 0 {
+			return ""
+		}
+	}
+	if nInt == 0 {
+		return ""
+	}
+	isQ := func(v ssa.Value, i int) bool {
+		if q[i] != nil {
+			return v == q[i]
+		}
+		for _, l := range lens {
+			if v == l {
+				return true
+			}
+		}
+		return false
+	}
+	nIf := 0
+	ok := true
+	instrs(f, func(b *ssa.BasicBlock, i int, in ssa.Instruction) {
+		switch x := in.(type) {
+		case *ssa.If:
+			nIf++
+			bo, isB := x.Cond.(*ssa.BinOp)
+			if !isB || !(isQ(bo.X, 0) && isQ(bo.Y, 1) || isQ(bo.X, 1) && isQ(bo.Y, 0)) {
+				ok = false
+			}
+		case *ssa.Return:
+			for _, rt := range plainOrigins.Roots(x.Results[0]) {
+				switch {
+				case rt.Kind == "param" && len(rt.Path) == 0 && isIntType(rt.V.Type()):
+				case rt.Kind == "call" && rt.Fn == nil && (isQ(rt.V, 0) || isQ(rt.V, 1)):
+				default:
+					ok = false
+				}
+			}
+		case *ssa.BinOp, *ssa.Jump, *ssa.Phi, *ssa.DebugRef:
+		case *ssa.Call:
+			if !isBuiltinCall(x, "len") {
+				ok = false
+			}
+		default:
+			ok = false
+		}
+	})
+	if !ok || nIf != 1 {
+		return ""
+	}
+	kind := ""
+	for _, s := range [][2]int64{{1, 2}, {2, 2}, {2, 1}} {
+		args := []LV{bottom, bottom}
+		var pinsL []Pin
+		for i := range f.Params {
+			if q[i] != nil {
+				args[i] = intLV(s[i])
+			} else {
+				for _, l := range lens {
+					pinsL = append(pinsL, pinValue(l, constant.MakeInt64(s[i])))
+				}
+			}
+		}
+		r := (&Folder{P: c.P, Input: pins(pinsL...)}).Fold(f, args)
+		v, okc := r.ReturnConst(0)
+		if !okc {
+			return ""
+		}
+		n, _ := constant.Int64Val(v)
+		lo, hi := s[0], s[1]
+		if lo > hi {
+			lo, hi = hi, lo
+		}
+		k := ""
+		switch {
+		case lo == hi:
+			continue
+		case n == lo:
+			k = "min"
+		case n == hi:
+			k = "max"
+		}
+		if k == "" || kind != "" && kind != k {
+			return ""
+		}
+		kind = k
+	}
+	return kind
 }
